@@ -18,8 +18,13 @@ def run(tier):
     for spec, alpha, ql, tl in RX_SPECS:
         if spec == "rxstar":
             continue  # r"a+" under * can be split in more than one way: outside the property's class
-        conds.append(Cond("h_parse_frag.py", "same_as_whole_fa", to, path_timeout=to / 2,
-                          env={"H_SPEC": spec, "H_LEN": str(ql if tier == "quick" else tl), "H_ALPHA": alpha}))
+        # one condition per first character (plus the empty word with the first one): the conditions run in parallel
+        for first in (alpha if (ql if tier == "quick" else tl) >= 4 else [""]):
+            conds.append(Cond("h_parse_frag.py", "same_as_whole_fa", to, path_timeout=to / 2,
+                              env={"H_SPEC": spec, "H_LEN": str(ql if tier == "quick" else tl), "H_ALPHA": alpha, "H_FIRST": first}))
+        if (ql if tier == "quick" else tl) >= 4:
+            conds.append(Cond("h_parse_frag.py", "same_as_whole_fa", to, path_timeout=to / 2,
+                              env={"H_SPEC": spec, "H_LEN": "0", "H_ALPHA": alpha, "H_FIRST": "-"}))
     run.run_conditions(conds, conformance_harnesses=["h_parse_frag.py"])
     run.encoded = PARSER_FUNCS
     run.extra["source_sha256_16"] = source_fingerprint(PARSER_FILES)
